@@ -1,5 +1,7 @@
 (* C18 - executable model of /repo/datalog/src/reasoning/backward_chaining.rs (whole file, as repaired by
-   c6d81bf: the rename counter starts above every `v<n>` used by the goal).
+   c6d81bf: the rename counter starts above every `v<n>` used by the goal, and by 8d76413: filters are renamed
+   with the rule and evaluated once the premises of a rule instance are solved), plus
+   rules.rs evaluate_filters, which backward chaining now calls.
 
    Same case splits and the same order of effects as the Rust code:
      resolve_term / substitute_term   chains of bindings are followed until an unbound variable or a constant
@@ -7,13 +9,25 @@
                                       FIRST variable to the second unless they are the same name
      unify_patterns                   subject, predicate, object in this order on a copy of the bindings
      rename_rule_variables            premises first (s, p, o), then conclusions, one shared var_map, one global
-                                      counter, new names are "v<counter>" in decimal; filters are cloned unchanged
+                                      counter, new names are "v<counter>" in decimal; the filters' variable and value
+                                      are looked up in the final var_map (unchanged when absent)
+     filters_hold                     no filters: true; else the `ground` map (every key of the bindings whose
+                                      resolution is a constant) is built and evaluate_filters is called
+     evaluate_filters                 a filter whose variable is not in the ground map is skipped; if the value is a
+                                      key of the ground map only = and != are compared, by id; otherwise the numeric
+                                      value of the bound constant is compared with the numeric value of the value
+                                      string (0.0 when it does not parse)
      first_fresh_variable_index       max over goal variables named v<usize> of n+1
      backward_chaining_helper         depth > MAX_DEPTH returns nothing; facts first (in store order), then every
                                       rule (renamed, even if no conclusion unifies), every conclusion, premises
-                                      solved left to right over the list of partial answers; filters never looked at
+                                      solved left to right over the list of partial answers, then only the partial
+                                      answers that pass filters_hold are kept
    Not modelled: quoted-triple terms; usize overflow of the counter; the HashMap is an association list whose
-   lookup returns the newest entry (insert = cons).  No proofs in this file. *)
+   lookup returns the newest entry (insert = cons); f64 (numeric values are integers `Z`: `num c` is what
+   dict.decode(c).parse::<f64>() gives, 0 when it does not parse); operators other than the six comparisons
+   (they accept everything in the code); a filter value is either a number (`FNum`) or a name (`FVar`) - a
+   name that is not a key of the ground map is compared as the number 0 (names are assumed not to parse as
+   numbers, and numbers are assumed not to be variable names).  No proofs in this file. *)
 Require Import List NArith ZArith String Ascii Bool DecimalString DecimalN Decimal.
 Import ListNotations.
 Open Scope string_scope.
@@ -24,7 +38,8 @@ Definition atom := (term * term * term)%type.
 Definition fact := (N * N * N)%type.
 
 Inductive cmp := CGt | CLt | CGe | CLe | CEq | CNe.
-Record fcond := Filter { fvar : string; fop : cmp; fnum : Z }.
+Inductive fvalue := FNum (z : Z) | FVar (y : string).
+Record fcond := Filter { fvar : string; fop : cmp; fval : fvalue }.
 Record rule := Rule { prem : list atom; concl : list atom; filters : list fcond }.
 
 Definition subst := list (string * term).
@@ -142,15 +157,68 @@ Fixpoint rename_atoms (l : list atom) (st : var_map * N) : list atom * (var_map 
     (a' :: l'', st2)
   end.
 
+(* var_map.get(name).cloned().unwrap_or_else(|| name.clone()) *)
+Definition rename_name (vm : var_map) (x : string) : string :=
+  match lookup x vm with Some y => y | None => x end.
+Definition rename_filter (vm : var_map) (f : fcond) : fcond :=
+  Filter (rename_name vm (fvar f)) (fop f)
+         (match fval f with FVar y => FVar (rename_name vm y) | FNum z => FNum z end).
+
 Definition rename_rule_variables (r : rule) (counter : N) : rule * N :=
   let '(ps, st1) := rename_atoms (prem r) ([], counter) in
   let '(cs, st2) := rename_atoms (concl r) st1 in
-  (Rule ps cs (filters r), snd st2).
+  (Rule ps cs (map (rename_filter (fst st2)) (filters r)), snd st2).
+
+(* ---- filters (rules.rs evaluate_filters, backward_chaining.rs filters_hold) ------------------------------ *)
+(* true = the comparison accepts *)
+Definition cmp_num (op : cmp) (a b : Z) : bool :=
+  match op with
+  | CGt => Z.ltb b a
+  | CLt => Z.ltb a b
+  | CGe => Z.leb b a
+  | CLe => Z.leb a b
+  | CEq => Z.eqb a b
+  | CNe => negb (Z.eqb a b)
+  end.
+Definition cmp_id (op : cmp) (a b : N) : bool :=
+  match op with
+  | CEq => N.eqb a b
+  | CNe => negb (N.eqb a b)
+  | _ => true
+  end.
+
+(* bindings.keys().filter_map(|name| match resolve_term(Var(name)) { Constant(id) => Some((name, id)), _ => None }) *)
+Definition ground_map (th : subst) : list (string * N) :=
+  flat_map (fun e => match resolve_term th (Var (fst e)) with
+                     | Cst c => [(fst e, c)]
+                     | Var _ => []
+                     end) th.
+
+Definition eval_filter (num : N -> Z) (g : list (string * N)) (f : fcond) : bool :=
+  match lookup (fvar f) g with
+  | Some lhs =>
+    match fval f with
+    | FVar y => match lookup y g with
+                | Some rhs => cmp_id (fop f) lhs rhs
+                | None => cmp_num (fop f) (num lhs) 0%Z
+                end
+    | FNum z => cmp_num (fop f) (num lhs) z
+    end
+  | None => true
+  end.
+Definition evaluate_filters (num : N -> Z) (g : list (string * N)) (fs : list fcond) : bool :=
+  forallb (eval_filter num g) fs.
+Definition filters_hold (num : N -> Z) (fs : list fcond) (th : subst) : bool :=
+  match fs with
+  | [] => true
+  | _ => evaluate_filters num (ground_map th) fs
+  end.
 
 Definition fact_pattern (f : fact) : atom := let '(s, p, o) := f in (Cst s, Cst p, Cst o).
 
 (* ---- the search ---------------------------------------------------------------------------------------- *)
 Section Search.
+  Variable num : N -> Z.   (* numeric value of a dictionary entry *)
   Variable facts : list fact.
   Variable rules : list rule.
   (* the recursive call backward_chaining_helper(prem, b, depth + 1, counter) *)
@@ -176,16 +244,19 @@ Section Search.
     end.
 
   (* for conclusion in &renamed_rule.conclusion { if let Some(rb) = unify_patterns(conclusion, &substituted, bindings) .. } *)
-  Fixpoint solve_concls (sq : atom) (th : subst) (ps : list atom) (cs : list atom) (n : N) : list subst * N :=
+  Fixpoint solve_concls (sq : atom) (th : subst) (ps : list atom) (fs : list fcond) (cs : list atom) (n : N)
+    : list subst * N :=
     match cs with
     | [] => ([], n)
     | c :: cs' =>
       match unify_patterns c sq th with
       | Some rb =>
         let '(r, n1) := solve_prems ps [rb] n in
-        let '(rs, n2) := solve_concls sq th ps cs' n1 in
-        (r ++ rs, n2)
-      | None => solve_concls sq th ps cs' n
+        (* results.extend(premise_results.into_iter().filter(|b| filters_hold(&renamed_rule.filters, b, &dict))) *)
+        let kept := List.filter (filters_hold num fs) r in
+        let '(rs, n2) := solve_concls sq th ps fs cs' n1 in
+        (kept ++ rs, n2)
+      | None => solve_concls sq th ps fs cs' n
       end
     end.
 
@@ -195,7 +266,7 @@ Section Search.
     | [] => ([], n)
     | r :: rs' =>
       let '(rr, n1) := rename_rule_variables r n in
-      let '(res, n2) := solve_concls sq th (prem rr) (concl rr) n1 in
+      let '(res, n2) := solve_concls sq th (prem rr) (filters rr) (concl rr) n1 in
       let '(rest, n3) := solve_rules sq th rs' n2 in
       (res ++ rest, n3)
     end.
@@ -219,19 +290,20 @@ End Search.
 
 (* `levels` = number of depths still allowed: the Rust helper at depth d is `helper (MAX_DEPTH + 1 - d)`;
    depth > MAX_DEPTH, i.e. levels = 0, returns nothing. *)
-Fixpoint helper (facts : list fact) (rules : list rule) (levels : nat) (q : atom) (th : subst) (n : N) : list subst * N :=
+Fixpoint helper (num : N -> Z) (facts : list fact) (rules : list rule) (levels : nat) (q : atom) (th : subst) (n : N)
+  : list subst * N :=
   match levels with
   | O => ([], n)
-  | S k => helper_body facts rules (helper facts rules k) q th n
+  | S k => helper_body num facts rules (helper num facts rules k) q th n
   end.
 
 Definition MAX_DEPTH : nat := 10.
 
-Definition backward_chaining (facts : list fact) (rules : list rule) (q : atom) : list subst :=
-  fst (helper facts rules (S MAX_DEPTH) q [] (first_fresh_variable_index q)).
+Definition backward_chaining (num : N -> Z) (facts : list fact) (rules : list rule) (q : atom) : list subst :=
+  fst (helper num facts rules (S MAX_DEPTH) q [] (first_fresh_variable_index q)).
 
 (* the observable of the property: resolve_term applied to the three goal positions *)
 Definition apply_answer (th : subst) (q : atom) : atom :=
   let '(s, p, o) := q in (resolve_term th s, resolve_term th p, resolve_term th o).
-Definition answers (facts : list fact) (rules : list rule) (q : atom) : list atom :=
-  map (fun th => apply_answer th q) (backward_chaining facts rules q).
+Definition answers (num : N -> Z) (facts : list fact) (rules : list rule) (q : atom) : list atom :=
+  map (fun th => apply_answer th q) (backward_chaining num facts rules q).
